@@ -470,9 +470,23 @@ class CallMixin:
                 return nm == "list"
         if isinstance(v, tuple):
             return nm == "tuple"
+        if isinstance(v, OpaqueV) and v.kind in ("exc_type", "exc_value", "exc_tb"):
+            # the exception a `with` body was left through: of an arbitrary class (each test is answered both ways, consistently)
+            return st.nd_bool(f"isinstance@{v.kind}:{nm}")
         if v is None or isinstance(v, (OpaqueV, float)):
             return False
         raise Unsupported(f"isinstance({v!r}, {nm})")
+
+    def b_issubclass(self, args, kwargs, st):
+        v, cls = args
+        if isinstance(v, OpaqueV) and v.kind == "exc_type":
+            names = [c.name for c in cls] if isinstance(cls, tuple) else [cls.name]
+            r = False
+            for nm in names:
+                x = st.nd_bool(f"isinstance@exc_value:{nm}")       # (the class of the value IS the type: same answers)
+                r = x if r is False else z3.Or(r, x)
+            return mk_bool(r)
+        raise Unsupported(f"issubclass({v!r}, ...)")
 
     def narrow_item(self, name_node, v, st, as_fmt):
         pass
